@@ -301,9 +301,12 @@ def hand_written():
             d = value.to_dict()
             back = cls.from_dict(d)
             for f, t in expected_types.items():
-                if type(getattr(back, f)) is not t:
+                got = back
+                for part in f.split("."):                       # "a.v": the attribute v of the attribute a; "[0]" indexes
+                    got = got[int(part[1:-1])] if part.startswith("[") else getattr(got, part)
+                if type(got) is not t:
                     viol.append({"clause": "wrong-class-instantiated", "T": ["hand-written", label], "field": f,
-                                 "expected": repr(t), "actual": repr(type(getattr(back, f)))})
+                                 "expected": repr(t), "actual": repr(type(got))})
             # error-reporting paths too
             for junk in ({}, {"m": 1}, None):
                 try:
